@@ -11,6 +11,9 @@ from .. import gengen, genref, genrun, genevo, gencheck, gencorr
 from ..gencheck import have_property_file, run_check
 
 PROP = 'C08'
+# finding F-08b: the model (Gen.dec_elems reads at the declared type) carries the defect, so the class is attributed only where the
+# extracted model predicts the code's outcome exactly (gencheck.confirm_known)
+gencheck.MODELLED_CLASSES.setdefault('container-element-retyped', 'F-08b')
 # Properties/C08.v (C08_skip_is_runtime_skip) rests on the main family's skip theorem
 if 'Proofs/SkipP.vo' not in gencheck.BASE_TARGETS:
     gencheck.BASE_TARGETS.append('Proofs/SkipP.vo')
@@ -84,6 +87,43 @@ def gen_cases(gb, rng, tier):
                         cases.append(dict(line=genrun.case_line('dec', cfg, tname, proto, 'sync', enc), want=list(want), restlen=0, cfg=cfg,
                                           type=tname, proto=proto, mode='sync', edits=[['add-before', tname, str(fj['id']), gengen.ty_txt(nt)]],
                                           hits=[], nontrivial=True))
+        # directed, finding F-08b (class container-element-retyped): the writer re-types the ELEMENTS of a container field (the
+        # field's wire type stays list / set / map).  Checked codecs only: reading the elements at the declared type can run
+        # past the end under the unchecked codec.
+        if d['kind'] == 'struct' and tname not in no_key:
+            swap = {'i32': ('string',), 'i64': ('string',), 'i16': ('string',), 'i8': ('i64',), 'bool': ('i32',), 'double': ('string',),
+                    'string': ('i64',), 'binary': ('i32',), 'uuid': ('i32',)}
+            nel = 0
+            for fj in d['fields']:
+                tj = sch.resolve(fj['ty'])
+                if tj[0] not in ('list', 'set') or nel >= (2 if tier == 'quick' else 8):
+                    continue
+                ek = sch.resolve(tj[1])[0]
+                if ek not in swap:
+                    continue
+                nel += 1
+                W = sch.copy()
+                for fw in W.types[tname]['fields']:
+                    if fw['id'] == fj['id']:
+                        fw['ty'] = (tj[0], swap[ek])
+                        fw['default'] = None
+                v = gengen.gen_value(rng, W, ty, 2)
+                if not v.get(fj['id']):
+                    v[fj['id']] = gengen.gen_value(rng, W, (tj[0], swap[ek]), 2) or [gengen.gen_value(rng, W, swap[ek], 1)]
+                hits = set()
+                try:
+                    want = ('ok', gengen.show(sch, ty, genevo.view(W, sch, ty, ty, v, hits)), gengen.show(sch, ty, genevo.view(W, sch, ty, ty, v), nan_canon=True))
+                except genevo.ViewError as e:
+                    want = ('err', e.args[0], None)
+                for proto, mode in (('binary', 'sync'), ('binary_le', 'sync'), ('compact', 'sync'), ('binary', 'async:all'), ('compact', 'async:c7')):
+                    if mode != 'sync' and proto not in genrun.ASYNC_PROTOS:
+                        continue
+                    enc = genref.encode(W, ty, v, genrun.ref_proto(proto))
+                    cases.append(dict(line=genrun.case_line('dec', cfg, tname, proto, mode, enc), want=list(want), restlen=0, cfg=cfg,
+                                      type=tname, proto=proto, mode=mode, edits=[['retype-elem', tname, str(fj['id']), gengen.ty_txt((tj[0], swap[ek]))]],
+                                      # outside evo_dom: the Coq view is not specified there (three-way comparison off); the model of
+                                      # the defect is run on exactly these lines by gencheck.confirm_known
+                                      hits=sorted(hits), nontrivial=True, model='container-element-retyped' not in hits))
         # hand-made union inputs: no field at all, two known variants
         if d['kind'] == 'union':
             vs = [x for x in d['variants'] if x['ty'] != ('void',)]
@@ -105,7 +145,8 @@ def gen_cases(gb, rng, tier):
 def evaluate(gb, case, out):
     res = genrun.Res(out)
     kind, a, b = case['want']
-    cls = 'union-variant-retyped' if 'union-variant-retyped' in case.get('hits', []) else None
+    cls = ('union-variant-retyped' if 'union-variant-retyped' in case.get('hits', []) else
+           'container-element-retyped' if 'container-element-retyped' in case.get('hits', []) else None)
     ty = ('ref', case['type'])
     if res.kind in ('panic', 'crash', 'hang', 'bad', 'badcase'):
         return [('decoder of the reader schema does not return on well-formed input of a writer schema: %s' % res.line[:100], cls)]
